@@ -185,6 +185,11 @@ loop:
 			break loop
 		case <-time.After(p.getBackoff()):
 			verifYield("run.afterBackoff", p.getName())
+			if p.isStopped.Load() {
+				// a stop or a project shutdown was requested during the back-off
+				// (a shutdown flags all processes first and stops them one by one)
+				break loop
+			}
 			p.handleInfo("\n")
 			continue
 		}
